@@ -90,6 +90,22 @@
         std::mem::forget(m); std::mem::forget(ca); std::mem::forget(cb);
     }
 
+    /// C17 (quick): a request for a different key with the same 64-bit hash leads its own fetch, it does not join the other's
+    #[kani::proof]
+    #[kani::unwind(4)]
+    fn colliding_key_leads_its_own_fetch() {
+        let mut m = VM::new();
+        let hash: u64 = kani::any();
+        let k1: u8 = kani::any();
+        let k2: u8 = kani::any();
+        kani::assume(k1 != k2);
+        let a = lead(&mut m, hash, &k1);
+        assert!(a.is_some(), "[first_caller_leads]");
+        let b = lead(&mut m, hash, &k2);
+        assert!(b.is_some(), "[colliding_key_is_not_joined_to_the_other_keys_fetch]");
+        std::mem::forget((m, a, b));
+    }
+
     #[kani::proof]
     #[kani::unwind(3)]
     fn canary_inflight_reaches_assertions() {
